@@ -11,6 +11,12 @@ D11 the generated rename:/delete:/template: processors act whenever the consumed
 D12 nothing on the resolution / gate / observer / generated-processor path reads process-lifetime state (module-level
 or class-level cells written at run time), except a table looked up by the identity of the objects its entries
 were computed from.
+D13 a payload-source node (found by role: the node class that uses the payload-source-only interface / that the node
+factory derives from on its PayloadSource branch) buffers what the source injects and merges it into the run's context
+behind `key in context -> KeyError`, D14 the template: processor renders with the placeholder grammar that named its
+parameters (extraction side and rendering side of factory.py agree: string.Formatter on both), filling each field with
+the value resolved under its name, D15 the logarithm that computes the exponents of a numpy.logspace range on the node
+path is the one of logspace's base (log-scaled parameter sweeps hand the processor lo..hi).
 The D1 first-match chain is decided from the truth table of the guards (sa/props/_chains.py) of the resolver's
 normal form (`match` lowered, split-off helpers absorbed), not from the textual order of the `if` statements.
 Anchors are found by role, not by name: the functions that resolve a node's parameters (fetcher / mapping builder,
@@ -1304,6 +1310,9 @@ def run(repo: Repo, R: Report) -> None:
     _rule_forwarding(repo, R)
     _rule_shorthand_processors(repo, R)
     _rule_no_process_state(repo, R)
+    _rule_payload_source_merge(repo, R, nmod)
+    _rule_template_rendering(repo, R)
+    _rule_log_ranges(repo, R)
 
 
 # ---------------------------------------------------------------------- D9
@@ -1763,3 +1772,451 @@ def _rule_no_process_state(repo: Repo, R: Report) -> None:
     for rel, (nf, nbad) in sorted(per_file.items()):
         if not nbad:
             R.ok(r, rel, f"{nf} function(s)", "no process-lifetime state read on the node path", "", 0)
+
+
+# ---------------------------------------------------------------------- D13
+DATAIO = "semantiva/data_io/data_io.py"
+
+
+def _payload_source_node_classes(repo: Repo, nmod) -> List[ast.ClassDef]:
+    """Node classes of nodes.py that wrap a payload source, found by role: (1) they use a part of the interface that
+    only the payload-source protocol of data_io.py has (`<node>.processor.<name>`), or (2) the node factory derives the
+    class it instantiates on its `issubclass(<processor>, PayloadSource)` branch from them."""
+    out: Dict[int, ast.ClassDef] = {}
+    node_classes = [c for c in nmod.tree.body if isinstance(c, ast.ClassDef)]
+    if repo.has_module(DATAIO):
+        dmod = repo.module(DATAIO)
+        io = [c for c in dmod.tree.body if isinstance(c, ast.ClassDef)]
+        src = [c for c in io if c.name == "PayloadSource"]
+        if src:
+            others = {st.name for c in io if c is not src[0] for st in c.body if isinstance(st, FuncNode)}
+            own = {st.name for st in src[0].body if isinstance(st, FuncNode) and not st.name.startswith("__")} - others
+            for c in node_classes:
+                if any(isinstance(x, ast.Attribute) and x.attr in own and (dotted_name(x.value) or "").endswith(".processor") for x in ast.walk(c)):
+                    out[id(c)] = c
+    if repo.has_module(NODEFACT):
+        fmod = repo.module(NODEFACT)
+        for f in [x for x in ast.walk(fmod.tree) if isinstance(x, FuncNode)]:
+            for br in [x for x in walk_no_nested(f) if isinstance(x, ast.If)]:
+                m = match("issubclass(_X_, _K_)", br.test)
+                if not m or (dotted_name(m["_K_"]) or "").split(".")[-1] != "PayloadSource":
+                    continue
+                for c in [c for st in br.body for c in calls_in(st)]:
+                    try:
+                        tg = repo.resolve_call(fmod, c)
+                    except Exception:
+                        tg = []
+                    for _m, t in tg:
+                        for c2 in calls_in(t) if isinstance(t, FuncNode) else []:
+                            b = kwarg(c2, "base_cls")
+                            hit = nmod.defs.get(dotted_name(b) or "") if b is not None else None
+                            if isinstance(hit, ast.ClassDef):
+                                out[id(hit)] = hit
+    return sorted(out.values(), key=lambda c: c.lineno)
+
+
+def _rule_payload_source_merge(repo: Repo, R: Report, nmod) -> None:
+    r = R.rule("C01-D13-payload-source-keys-are-merged-with-a-clash-test", "a payload-source node lets the wrapped source write into a buffer of the node, not into the run's context, and afterwards merges every buffered key into the payload's context behind the test `key in context` -> KeyError (the keys a source injects never silently replace a key that the initial context or an earlier node put there; the run fails at the source node instead), on every path, and returns the source's data with that context", 4)
+    classes = _payload_source_node_classes(repo, nmod)
+    if not classes:
+        raise AnalysisError("nodes.py: no node class wraps a payload source (1 confirmed by reading: it reads processor.injected_context_keys and is the base class the node factory uses for PayloadSource)")
+    done: Set[int] = set()
+    for cls in classes:
+        hit = repo.method(nmod, cls, "_process_single_item_with_context")
+        if hit is None or hit[0] is not nmod or id(hit[1]) in done:
+            if hit is None or hit[0] is not nmod:
+                raise AnalysisError(f"{cls.name}: node body not found in nodes.py")
+            continue
+        done.add(id(hit[1]))
+        f0 = hit[1]
+        qn = qualname_of(f0)
+        f = _nf(repo, NODES, qn)
+        if len(f.args.args) < 2:
+            raise AnalysisError(f"{qn}: (self, payload) expected")
+        sp, pl = f.args.args[0].arg, f.args.args[1].arg
+        g = CFG(f, may_raise=_no_raise)
+        inh = "" if qn.startswith(cls.name + ".") else f"{cls.name} (the payload-source node) runs the inherited body {qn}: "
+        run_ctx = lambda e, use: e is not None and use is not None and _is_run_input(g, e, use, pl, "context")
+
+        def is_buffer(e: Optional[ast.AST], use: int) -> bool:
+            return e is not None and dotted_name(_val(g, e, use)[0]) == f"{sp}.observer_context"
+
+        proc_nodes = [n.id for n in g.nodes if n.kind == "stmt" and n.ast is not None and any(isinstance(c.func, ast.Attribute) and c.func.attr == "process" and dotted_name(c.func.value) == f"{sp}.processor" for c in calls_in(n.ast))]
+        if not proc_nodes:
+            raise AnalysisError(f"{qn}: the wrapped source is not run here")
+        # (a) the object the wrapped operation writes to (<node>.observer_context: the node is its context observer) is
+        #     not the run's context
+        direct: List[ast.AST] = []
+        for n in g.nodes:
+            if n.kind != "stmt" or n.ast is None:
+                continue
+            if isinstance(n.ast, (ast.Assign, ast.AnnAssign)) and n.ast.value is not None:
+                tg = n.ast.targets if isinstance(n.ast, ast.Assign) else [n.ast.target]
+                if any(dotted_name(t) == f"{sp}.observer_context" for t in tg) and run_ctx(n.ast.value, n.id):
+                    direct.append(n.ast)
+            for c in calls_in(n.ast):
+                if isinstance(c.func, ast.Name) and c.func.id == "setattr" and len(c.args) == 3 and dotted_name(c.args[0]) == sp and isinstance(c.args[1], ast.Constant) and c.args[1].value == "observer_context" and run_ctx(c.args[2], n.id):
+                    direct.append(n.ast)
+        R.check(not direct, r, NODES, qn, "the source writes into the node's own buffer (<node>.observer_context is not the run's context)",
+                f"{inh}`{norm(direct[0])[:70]}` hands the wrapped source the pipeline context itself: DataOperation._notify_context_update stores the injected keys there with no test, so a key that is already present (initial context, rename:/template:/probe of an earlier node) is silently overwritten and later nodes run on it, where the node semantics prescribe KeyError at the source node" if direct else "", getattr(direct[0], "lineno", f0.lineno) if direct else f0.lineno)
+
+        # (b) the merge: loops over the buffer's items that store each one into the run's context
+        loops = []  # (head node id, For, key name, value predicate)
+        for n in g.nodes:
+            if n.kind != "for" or not isinstance(n.ast, ast.For):
+                continue
+            it, iu = _val(g, n.ast.iter, n.id)
+            tgt = n.ast.target
+            if isinstance(it, ast.Call) and isinstance(it.func, ast.Attribute) and it.func.attr == "items" and not it.args and is_buffer(it.func.value, iu) and isinstance(tgt, (ast.Tuple, ast.List)) and len(tgt.elts) == 2 and all(isinstance(e, ast.Name) for e in tgt.elts):
+                kname, vname = tgt.elts[0].id, tgt.elts[1].id
+                loops.append((n.id, n.ast, kname, (lambda e, use, vname=vname: isinstance(e, ast.Name) and e.id == vname)))
+            else:
+                if isinstance(it, ast.Call) and isinstance(it.func, ast.Attribute) and it.func.attr == "keys" and not it.args:
+                    it = it.func.value
+                if is_buffer(it, iu) and isinstance(tgt, ast.Name):
+                    kname = tgt.id
+
+                    def looked_up(e, use, kname=kname) -> bool:
+                        v = _val(g, e, use)[0]
+                        if isinstance(v, ast.Call) and isinstance(v.func, ast.Attribute) and v.func.attr == "get_value" and len(v.args) == 1 and not v.keywords:
+                            return is_buffer(v.func.value, use) and isinstance(v.args[0], ast.Name) and v.args[0].id == kname
+                        return isinstance(v, ast.Subscript) and is_buffer(v.value, use) and isinstance(v.slice, ast.Name) and v.slice.id == kname
+                    loops.append((n.id, n.ast, kname, looked_up))
+        heads = {h for h, _l, _k, _v in loops}
+
+        def in_loop(a: ast.AST, lp: ast.AST) -> bool:
+            return any(x is lp for x in ancestors(a))
+
+        def only_loop_binding(name: str, use: int, head: int) -> bool:
+            return {d.id for d in reaching_defs(g, name, use)} == {head}
+
+        def store_of(n, head: int, lp: ast.AST, kname: str, is_value) -> bool:
+            """statement *n* stores <value of the current item> under <key of the current item> into the run's context"""
+            if n.kind != "stmt" or n.ast is None or not in_loop(n.ast, lp):
+                return False
+            for c in calls_in(n.ast):
+                a = None
+                if isinstance(c.func, ast.Attribute) and c.func.attr == "set_value" and run_ctx(c.func.value, n.id):
+                    a = _call_args(c, ("key", "value"))
+                elif call_attr(c) == "update_context":
+                    a = _call_args(c, ("context", "key", "value"))
+                    if a is not None and not run_ctx(a.get("context"), n.id):
+                        a = None
+                if a and isinstance(a.get("key"), ast.Name) and a["key"].id == kname and only_loop_binding(kname, n.id, head) and a.get("value") is not None and is_value(a["value"], n.id):
+                    return True
+            if isinstance(n.ast, ast.Assign):
+                for t in n.ast.targets:
+                    if isinstance(t, ast.Subscript) and run_ctx(t.value, n.id) and isinstance(t.slice, ast.Name) and t.slice.id == kname and only_loop_binding(kname, n.id, head) and is_value(n.ast.value, n.id):
+                        return True
+            return False
+
+        writes: Dict[int, int] = {}  # write node -> loop head
+        for h, lp, kname, is_value in loops:
+            for n in g.nodes:
+                if store_of(n, h, lp, kname, is_value):
+                    writes[n.id] = h
+        # every normal path from the source's run to the return goes through a merge loop, and no iteration of
+        # the loop gets back to its head (or out) without the store
+        starts = [t for p in proc_nodes for t, lab in g.succ[p] if t not in heads]
+        skipped = g.must_pass(starts, [g.ret_exit], lambda n: n.id in heads) if starts else []
+        dropped = []
+        for h in heads:
+            body_starts = [t for t, lab in g.succ[h] if lab == "T" and t not in writes]
+            dropped += g.must_pass(body_starts, [h, g.ret_exit], lambda n: n.id in writes) if body_starts else []
+        ok = bool(loops) and bool(writes) and not skipped and not dropped and all(any(w == h for w in writes.values()) for h in heads)
+        R.check(ok, r, NODES, qn, "for key, value in <node>.observer_context.items(): context.set_value(key, value) on every path after the source ran",
+                inh + "the keys the source injected are not all carried from the node's buffer into the payload's context (no merge loop over the buffer, a path around it, or an iteration that stores nothing)", f0.lineno, (skipped or dropped)[0][1] if (skipped or dropped) else None)
+
+        # (c) the store is reached only when the key is not in the run's context yet; otherwise KeyError, at once
+        def no_clash_for(kname: str):
+            def atom(e: ast.AST, use: int) -> Optional[bool]:
+                if isinstance(e, ast.Compare) and len(e.ops) == 1 and isinstance(e.ops[0], (ast.In, ast.NotIn)) and isinstance(e.left, ast.Name) and e.left.id == kname:
+                    c = _val(g, e.comparators[0], use)[0]
+                    if isinstance(c, ast.Call) and isinstance(c.func, ast.Attribute) and c.func.attr == "keys" and not c.args:
+                        c = c.func.value
+                    if run_ctx(c, use):
+                        return isinstance(e.ops[0], ast.NotIn)
+                return None
+            return atom
+
+        ok, path = bool(writes), []
+        for h, lp, kname, _is_value in loops:
+            atom = no_clash_for(kname)
+            mine = [w for w, hh in writes.items() if hh == h]
+            ge = {nid: es for nid, es in _guard_edges(g, atom).items() if g.nodes[nid].ast is not None and in_loop(g.nodes[nid].ast, lp)}
+            seen = g.reach([t for t, lab in g.succ[h] if lab == "T"], blocked_edges={(nid, lab) for nid, es in ge.items() for lab in es})
+            for w in mine:
+                if w in seen:
+                    ok, path = False, path or g.path_to(seen, w)
+            ok = ok and bool(ge)
+            for nid, es in ge.items():
+                other = [t for t, lab in g.succ[nid] if lab in ({"T", "F"} - es)]
+                reach = g.reach(other)
+                raises = [g.nodes[x].ast for x in reach if g.nodes[x].kind == "stmt" and isinstance(g.nodes[x].ast, ast.Raise)]
+                ok = ok and bool(other) and g.ret_exit not in reach and h not in reach and bool(raises) and all(rz.exc is not None and dotted_name(rz.exc.func if isinstance(rz.exc, ast.Call) else rz.exc) == "KeyError" for rz in raises)
+        R.check(ok, r, NODES, qn, "if key in context.keys(): raise KeyError(..) in front of the store",
+                inh + "an injected key that is already in the payload's context is not refused with KeyError at this node (test missing, not in front of the store, or the clash is skipped / logged instead of raised): the source overwrites or silently drops it and the run continues", f0.lineno, path)
+
+        # (d) what the node returns: the source's data with the run's (merged) context
+        rets = [n for n in g.nodes if n.kind == "stmt" and isinstance(n.ast, ast.Return)]
+        ok = bool(rets) and not g.must_pass([g.entry], [g.ret_exit], lambda n: n.kind == "stmt" and isinstance(n.ast, ast.Return))
+        for rn in rets:
+            vs = _vals(g, rn.ast.value, rn.id) if rn.ast.value is not None else None
+            ok = ok and bool(vs)
+            for v, u in vs or []:
+                pa = _call_args(v, ("data", "context")) if isinstance(v, ast.Call) and call_attr(v) == "Payload" else None
+                if not pa or set(pa) != {"data", "context"}:
+                    ok = False
+                    continue
+                dv = _vals(g, pa["data"], u)
+                ok = ok and bool(dv) and all(isinstance(x, ast.Call) and dotted_name(x.func) == f"{sp}.processor.process" for x, _u in dv) and run_ctx(pa["context"], u)
+        R.check(ok, r, NODES, qn, "return Payload(<source result>, <payload's context>)", "the payload-source node does not return the source's data together with the run's context", f0.lineno)
+
+
+# ---------------------------------------------------------------------- D14
+_RE_METHODS = {"sub", "subn", "findall", "finditer", "split", "match", "search", "fullmatch"}
+_TEXT_METHODS = {"replace", "split", "rsplit", "partition", "rpartition", "find", "index", "count", "translate", "strip", "lstrip", "rstrip", "removeprefix", "removesuffix", "splitlines", "join"}
+
+
+def _is_formatter(g: CFG, e: ast.AST, use: int) -> bool:
+    """*e* denotes a `string.Formatter()` instance"""
+    v = _val(g, e, use)[0]
+    return isinstance(v, ast.Call) and (dotted_name(v.func) or "").split(".")[-1] == "Formatter" and not v.args and not v.keywords
+
+
+def _grammar_uses(g: CFG, fn: ast.AST, subject_is) -> List[Tuple[Tuple[str, ...], ast.Call, Optional[ast.AST]]]:
+    """How *fn* takes the text `subject` apart / fills it in: (grammar, call, mapping argument of a rendering call).
+    ('format',) = the replacement-field grammar of str.format (string.Formatter: `{{` and `}}` are literal braces),
+    ('regex', <pattern>) = a regular expression, ('text', <method>) = plain string surgery."""
+    out: List[Tuple[Tuple[str, ...], ast.Call, Optional[ast.AST]]] = []
+    for c in calls_in(fn):
+        use = _node_of(g, c)
+        if use is None or not isinstance(c.func, ast.Attribute):
+            continue
+        a, recv = c.func.attr, c.func.value
+        pos = [x for x in c.args if not isinstance(x, ast.Starred)]
+        star2 = [k.value for k in c.keywords if k.arg is None]
+        if a == "parse" and len(pos) == 1 and subject_is(pos[0], use) and _is_formatter(g, recv, use):
+            out.append((("format",), c, None))
+        elif a == "vformat" and len(pos) == 3 and subject_is(pos[0], use) and _is_formatter(g, recv, use):
+            out.append((("format",), c, pos[2]))
+        elif a == "format" and len(pos) == 1 and len(c.args) == 1 and subject_is(pos[0], use) and _is_formatter(g, recv, use):
+            out.append((("format",), c, star2[0] if len(star2) == 1 and len(c.keywords) == 1 else None))
+        elif a == "format" and subject_is(recv, use):
+            out.append((("format",), c, star2[0] if len(star2) == 1 and len(c.keywords) == 1 and not c.args else None))
+        elif a == "format_map" and subject_is(recv, use):
+            out.append((("format",), c, pos[0] if len(pos) == 1 and len(c.args) == 1 and not c.keywords else None))
+        elif a in _RE_METHODS and dotted_name(recv) == "re" and len(pos) >= 2 and any(subject_is(x, use) for x in pos[1:]):
+            out.append((("regex", ast.unparse(_val(g, pos[0], use)[0])), c, None))
+        elif a in _RE_METHODS and dotted_name(recv) != "re" and any(subject_is(x, use) for x in pos) and not subject_is(recv, use):
+            out.append((("regex", ast.unparse(_val(g, recv, use)[0])), c, None))
+        elif a in _TEXT_METHODS and subject_is(recv, use):
+            out.append((("text", a), c, None))
+    return out
+
+
+def _rule_template_rendering(repo: Repo, R: Report) -> None:
+    r = R.rule("C01-D14-template-rendered-by-the-grammar-that-named-its-parameters", "the processor generated for template: renders the template with the same placeholder grammar that extracted the node's parameter names from it (string.Formatter / str.format: `{{` and `}}` are literal braces, `{name}` a field), filling every field with the value resolved for that name: what the loader accepted as literal text stays literal text, and what it turned into a parameter is what gets substituted", 2)
+    cmod = repo.module(CFACT)
+    fac0 = repo.func(CFACT, "_context_template_factory")
+    fac = fac0
+    logics = [n for n in ast.walk(fac) if isinstance(n, FuncNode) and n is not fac and n.args.kwarg is not None and any(call_attr(c) == "_notify_context_update" for c in calls_in(n))]
+    names_fns = [n for n in ast.walk(fac) if isinstance(n, FuncNode) and n.name == "get_processing_parameter_names"]
+    if len(logics) != 1 or len(names_fns) != 1:
+        raise AnalysisError("_context_template_factory: generated _process_logic(self, **kwargs) / get_processing_parameter_names not found")
+    logic, names_fn = logics[0], names_fns[0]
+    gf = CFG(fac, may_raise=_no_raise)
+    fparams = _fn_params(fac)
+    # the parameter names of the generated processor: a closure variable of the factory ...
+    def unwrap(e: ast.AST) -> ast.AST:
+        while isinstance(e, ast.Call) and isinstance(e.func, ast.Name) and e.func.id in ("list", "tuple") and len(e.args) == 1 and not e.keywords:
+            e = e.args[0]
+        return e
+    rets = [unwrap(n.value) for n in walk_no_nested(names_fn) if isinstance(n, ast.Return) and n.value is not None]
+    if len(rets) != 1 or not isinstance(rets[0], ast.Name) or rets[0].id in _fn_params(names_fn):
+        raise AnalysisError("_context_template_factory: get_processing_parameter_names does not return a variable of the factory")
+    names_var = rets[0].id
+    use_f = _node_of(gf, names_fn)
+    src, su = _val(gf, ast.Name(id=names_var, ctx=ast.Load()), use_f) if use_f is not None else (None, 0)
+    # ... computed from the template text: which factory parameter, and by which grammar
+    cands = sorted({x.id for x in ast.walk(src) if isinstance(x, ast.Name) and x.id in fparams and _is_param(gf, x, su, x.id)}) if src is not None else []
+    if len(cands) != 1:
+        raise AnalysisError("_context_template_factory: the template text the parameter names are extracted from is not identified")
+    tpl = cands[0]
+    uses = _grammar_uses(gf, fac, lambda e, use: _is_param(gf, e, use, tpl))
+    seen_fn: Set[int] = set()
+
+    def through(mod, fn_g: CFG, fn: ast.AST, subject_is, depth: int = 0) -> None:
+        """helpers (of this module) the text is handed to"""
+        for c in calls_in(fn):
+            use = _node_of(fn_g, c)
+            if use is None or depth > 3:
+                continue
+            try:
+                tg = repo.resolve_call(mod, c)
+            except Exception:
+                tg = []
+            for m, G in tg:
+                if m is not mod or not isinstance(G, FuncNode) or id(G) in seen_fn:
+                    continue
+                b = _callee_binding(mod, c, G)
+                for q, arg in (b or {}).items():
+                    if subject_is(arg, use):
+                        seen_fn.add(id(G))
+                        gg = CFG(G, may_raise=_no_raise)
+                        sub = lambda e, u, gg=gg, q=q: _is_param(gg, e, u, q)
+                        uses.extend(_grammar_uses(gg, G, sub))
+                        through(mod, gg, G, sub, depth + 1)
+
+    through(cmod, gf, fac, lambda e, use: _is_param(gf, e, use, tpl))
+    extraction = sorted({u[0] for u in uses})
+    if not extraction:
+        raise AnalysisError("_context_template_factory: how the placeholder names are taken out of the template is not recognised (string.Formatter().parse confirmed by reading)")
+    # the rendering side: the value written by the generated processor
+    gl = CFG(logic, may_raise=_no_raise)
+    kw = logic.args.kwarg.arg
+    lparams = _fn_params(logic)
+
+    def is_template(e: ast.AST, use: int) -> bool:
+        v, u = _val(gl, e, use)
+        return isinstance(v, ast.Name) and v.id == tpl and v.id not in lparams and not reaching_defs(gl, tpl, u)
+
+    renders = _grammar_uses(gl, logic, is_template)
+    written: List[Tuple[ast.AST, int, ast.Call]] = []
+    for c in calls_in(logic):
+        if call_attr(c) == "_notify_context_update":
+            a = _call_args(c, ("key", "value"))
+            use = _node_of(gl, c)
+            if a and "value" in a and use is not None:
+                for v, u in _vals(gl, a["value"], use) or [(a["value"], use)]:
+                    written.append((v, u, c))
+    if not written:
+        raise AnalysisError("_context_template_factory: the generated processor writes nothing")
+    bad: Optional[str] = None
+    bad_line = logic.lineno
+    mappings: List[Tuple[ast.AST, int]] = []
+    for v, u, c in written:
+        mine = [x for x in renders if x[1] is v]
+        if len(mine) != 1:
+            other = [x for x in renders if any(y is x[1] for y in ast.walk(v))]
+            how = f" ({'/'.join(other[0][0])})" if other else ""
+            bad, bad_line = bad or f"the text written is `{ast.unparse(v)[:70]}`{how}, not the template filled in by str.format / format_map / string.Formatter", getattr(v, "lineno", logic.lineno)
+            continue
+        gram, call, mapping = mine[0]
+        if len(extraction) != 1 or gram != extraction[0]:
+            bad, bad_line = bad or (f"the parameter names are extracted with {' / '.join('/'.join(x) for x in extraction)}, the text is rendered with {'/'.join(gram)} (`{ast.unparse(call)[:70]}`): the two do not agree on what a placeholder is "
+                                    "(`{{` / `}}` are literal braces for string.Formatter but not for a `\\{name\\}` pattern), so literal braces of an accepted template come out doubled, or literal text `{{name}}` is taken for a parameter that was never resolved and the node raises KeyError where it should write"), getattr(call, "lineno", logic.lineno)
+            continue
+        if gram == ("format",):
+            if mapping is None:
+                bad, bad_line = bad or f"`{ast.unparse(call)[:70]}` does not fill the fields from one mapping of the resolved values", getattr(call, "lineno", logic.lineno)
+            else:
+                mappings.append((mapping, _node_of(gl, call) or u))
+    R.check(bad is None, r, CFACT, "_context_template_factory._process_logic", "rendered = template.format(**values): same grammar as the placeholder extraction", bad or "", bad_line)
+
+    # every field is filled with the value resolved under its own name
+    def resolved_under(name: str, e: ast.AST) -> bool:
+        if isinstance(e, ast.Call) and isinstance(e.func, ast.Name) and e.func.id == "str" and len(e.args) == 1 and not e.keywords:
+            e = e.args[0]
+        return isinstance(e, ast.Subscript) and dotted_name(e.value) == kw and isinstance(e.slice, ast.Name) and e.slice.id == name
+
+    ok, why = True, ""
+    for m_, u in mappings:
+        for v, vu in _vals(gl, m_, u) or [(m_, u)]:
+            if isinstance(v, ast.Name) and v.id == kw:
+                continue
+            good = False
+            if isinstance(v, ast.DictComp) and len(v.generators) == 1 and not v.generators[0].ifs:
+                gen = v.generators[0]
+                it = unwrap(_val(gl, gen.iter, vu)[0])
+                if isinstance(gen.target, ast.Name) and isinstance(v.key, ast.Name) and v.key.id == gen.target.id:
+                    over_names = isinstance(it, ast.Name) and it.id == names_var and it.id not in lparams
+                    over_kw = (isinstance(it, ast.Name) and it.id == kw) or (isinstance(it, ast.Call) and isinstance(it.func, ast.Attribute) and it.func.attr == "keys" and dotted_name(it.func.value) == kw)
+                    good = (over_names or over_kw) and resolved_under(gen.target.id, v.value)
+                elif isinstance(gen.target, (ast.Tuple, ast.List)) and len(gen.target.elts) == 2 and all(isinstance(e, ast.Name) for e in gen.target.elts):
+                    k_, v_ = gen.target.elts[0].id, gen.target.elts[1].id
+                    val = v.value.args[0] if isinstance(v.value, ast.Call) and isinstance(v.value.func, ast.Name) and v.value.func.id == "str" and len(v.value.args) == 1 and not v.value.keywords else v.value
+                    good = isinstance(it, ast.Call) and isinstance(it.func, ast.Attribute) and it.func.attr == "items" and dotted_name(it.func.value) == kw and isinstance(v.key, ast.Name) and v.key.id == k_ and isinstance(val, ast.Name) and val.id == v_
+            if not good:
+                ok, why = False, why or f"`{ast.unparse(v)[:70]}`"
+    R.check(ok and (bool(mappings) or bad is not None), r, CFACT, "_context_template_factory._process_logic", "values = {name: str(kwargs[name]) for name in required_keys}", f"a field of the template is not filled with the value resolved for the parameter of the same name: {why}", logic.lineno)
+
+
+# ---------------------------------------------------------------------- D15
+def _rule_log_ranges(repo: Repo, R: Report) -> None:
+    """The values a sweep node hands to its processor for a log-scaled range are base ** exponent: the two sides of the
+    numpy boundary have to agree on the base (np.logspace raises `base`, default 10, to exponents that the caller computes
+    with a logarithm)."""
+    r = R.rule("C01-D15-log-range-exponents-match-the-base", "wherever the node path builds a logarithmic range with numpy.logspace(start, stop, .., base=B), the logarithm that computes the exponents start / stop is the logarithm to base B (log10 for the default base 10): the swept parameter values the processor sees run from lo to hi, not from B**log_other(lo) to B**log_other(hi)", 1)
+
+    def log_base(mod, c: ast.Call):
+        """base of the logarithm call *c* (10, 2, 'e', a constant, '?' for log1p & co), None when it is not one"""
+        dn = dotted_name(c.func) or ""
+        head, _, fn_ = dn.rpartition(".")
+        target = mod.imports.get(head, head) if head else mod.imports.get(dn, "")
+        if not head and target.startswith(("numpy.", "math.")):
+            target, fn_ = target.rsplit(".", 1)
+        if target in ("np", "numpy", "math") and fn_.startswith("log"):
+            if fn_ == "log10":
+                return 10
+            if fn_ == "log2":
+                return 2
+            if fn_ == "log":
+                if target == "math" and len(c.args) == 2:
+                    return base_of(mod, c.args[1])
+                return "e"
+            return "?"
+        return None
+
+    def base_of(mod, e: Optional[ast.AST]):
+        if e is None:
+            return 10
+        if isinstance(e, ast.Constant) and isinstance(e.value, (int, float)) and not isinstance(e.value, bool):
+            return int(e.value) if float(e.value).is_integer() else e.value
+        dn = dotted_name(e) or ""
+        head, _, nm = dn.rpartition(".")
+        if nm == "e" and mod.imports.get(head, head) in ("np", "numpy", "math"):
+            return "e"
+        return None
+
+    n_seen = 0
+    for rel in _NODE_PATH_FILES:
+        if not repo.has_module(rel):
+            continue
+        mod = repo.module(rel)
+        if "logspace" not in mod.source:
+            continue
+        for qn, f0 in sorted(mod.defs.items()):
+            if not isinstance(f0, FuncNode) or "logspace" not in (ast.get_source_segment(mod.source, f0) or "logspace"):
+                continue
+            try:
+                f = nfunc(repo, rel, qn)
+            except Exception:
+                f = f0
+            g = CFG(f, may_raise=_no_raise)
+            for c in calls_in(f):
+                dn = dotted_name(c.func) or ""
+                if dn.rpartition(".")[2] != "logspace" and mod.imports.get(dn, "") != "numpy.logspace":
+                    continue
+                use = _node_of(g, c)
+                b = _call_args(c, ("start", "stop", "num", "endpoint", "base", "dtype", "axis"))
+                if use is None or b is None or "start" not in b or "stop" not in b:
+                    raise AnalysisError(f"{qn}: arguments of `{norm(c)[:60]}` cannot be bound")
+                n_seen += 1
+                base = base_of(mod, _val(g, b["base"], use)[0] if "base" in b else None)
+                bad: Optional[Tuple[ast.Call, object]] = None
+                for role in ("start", "stop"):
+                    for leaf, _u in _vals(g, b[role], use) or [(b[role], use)]:
+                        for x in ast.walk(leaf):
+                            lb = log_base(mod, x) if isinstance(x, ast.Call) else None
+                            if lb is not None and base is not None and lb != base:
+                                bad = bad or (x, lb)
+                names = {10: "the decimal logarithm", 2: "the binary logarithm", "e": "the natural logarithm"}
+                R.check(bad is None, r, rel, qn, f"{dn}(log_B(lo), log_B(hi), ..) with B = the base of logspace",
+                        f"`{ast.unparse(bad[0])[:50]}` computes an exponent with {names.get(bad[1], 'another logarithm')} while `{norm(c)[:70]}` raises base {base} to it: a log-scaled range lo..hi is materialised as {base}**log(lo)..{base}**log(hi) in the wrong units (e.g. lo=1, hi=100, 3 steps gives 1, 200.7, 40287.5 instead of 1, 10, 100), and the wrapped processor and <var>_values see those values" if bad else "", c.lineno)
+    if not n_seen:
+        # no logspace left: a log range built by numpy.geomspace(lo, hi, ..) needs no exponents at all
+        geo = [rel for rel in _NODE_PATH_FILES if repo.has_module(rel) and "geomspace" in repo.module(rel).source]
+        if not geo:
+            raise AnalysisError("no numpy.logspace / numpy.geomspace call on the node path (2 logspace calls in _materialize_sequences confirmed by reading)")
+        R.ok(r, geo[0], "<module>", "log ranges are built by geomspace(lo, hi, ..): no exponents to agree on")
